@@ -60,6 +60,21 @@ func AddHooks(ctx *core.Context, cronner Cronner, state core.State) error {
 		}
 
 		if schedule == "" {
+			if loading || cronner == nil {
+				return nil
+			}
+			// The fact might replace a scheduled rule, whose
+			// job then has to go.
+			previous, err := state.Get(ctx, id)
+			if err != nil || previous == nil {
+				// Nothing (alive) to replace.
+				return nil
+			}
+			if was, _ := getSchedule(ctx, previous); was != "" {
+				core.Log(core.INFO|CRON, ctx, "addHook", "id", id, "unscheduling", was)
+				_, err = cronner.Rem(ctx, id)
+				return err
+			}
 			return nil
 		}
 
